@@ -3,7 +3,7 @@ import math
 from . import common as C, gen_float as G, float_oracles as FO
 from .oracles import kv
 
-LEAN_MODULE = "Urandom.Props.C12"
+LEAN_MODULE = ["Urandom.Props.C12", "Urandom.Props.C12T"]
 RULE = ("requests: Uniform<f32|f64> through try_new, try_new_inclusive, new, Random::range for finite bounds of all magnitudes (subnormal, huge, nearly equal, far from zero relative "
         "to their distance, reversed, equal, overflowing difference) and non-finite inputs, x unit floats from words {0, !0, boundary mantissas, random}; debug and release builds "
         "(the NonFinite check exists only under debug_assertions). oracle: the property's bounds predicate on every sample, classified by the known-finding predicates D2 / D2b. "
